@@ -124,6 +124,33 @@ func (m m4) encode() []byte { return m.p.ToBytes() }
 func (m m6) snap() string   { return snap.V6(m.d) }
 func (m m6) encode() []byte { return m.d.ToBytes() }
 
+// editMessage changes a header field and adds an option (what a caller does when it reuses the object for its next message).
+func editMessage(m message) bool {
+	var v any
+	switch x := m.(type) {
+	case m4:
+		v = x.p
+	case m6:
+		v = x.d
+	case anyMsg:
+		v = x.v
+	}
+	switch x := v.(type) {
+	case *dhcpv4.DHCPv4:
+		x.TransactionID[0] ^= 0xff
+		x.UpdateOption(dhcpv4.OptGeneric(dhcpv4.GenericOptionCode(224), []byte("edited")))
+	case *dhcpv6.Message:
+		x.TransactionID[0] ^= 0xff
+		x.AddOption(&dhcpv6.OptionGeneric{OptionCode: 65010, OptionData: []byte("edited")})
+	case *dhcpv6.RelayMessage:
+		x.HopCount ^= 0x5a
+		x.AddOption(&dhcpv6.OptionGeneric{OptionCode: 65010, OptionData: []byte("edited")})
+	default:
+		return false
+	}
+	return true
+}
+
 func decode(v6 bool, buf []byte) (message, error) {
 	if v6 {
 		d, err := dhcpv6.FromBytes(buf)
@@ -371,6 +398,43 @@ func runInput(c *fw.Ctx, idx int, in Input, fixed []pattern, same []Input, other
 				cnt.compared.Add(1)
 			})
 		}
+	}
+	// H5: two encodings of one message are two pieces of memory, and an encoding handed out earlier survives an edit of
+	// the message followed by another encoding (bytes queued for sending, then the same object reused for the next message)
+	if in.EP == nil || in.EP == epMessage || in.EP == epRelay {
+		n++
+		guard("H5", "two-encodings", func() {
+			m, err := decodeIn(in, append([]byte(nil), in.B...))
+			if err != nil {
+				return
+			}
+			b1 := m.encode()
+			b2 := m.encode()
+			keep := append([]byte(nil), b1...)
+			for i := range b1 {
+				b1[i] ^= 0xa5
+			}
+			if !bytes.Equal(b2, keep) {
+				c.Report(fw.Violation{Fingerprint: versionOf(in) + ".ToBytes|two-encodings-share-memory", Order: order, Scope: "H5 two-encodings (" + in.Name + ")", Input: fw.Hex(in.B),
+					Observed: fmt.Sprintf("b1 := m.ToBytes(); b2 := m.ToBytes(); after overwriting b1, b2 reads %s (was %s)", fw.HexShort(b2), fw.HexShort(keep)),
+					Expected: "b2 unchanged: every call returns bytes of its own",
+					Explain:  "ToBytes returns memory the message keeps and hands out again"})
+				return
+			}
+			b3 := m.encode()
+			keep3 := append([]byte(nil), b3...)
+			if !editMessage(m) {
+				return
+			}
+			_ = m.encode()
+			if !bytes.Equal(b3, keep3) {
+				c.Report(fw.Violation{Fingerprint: versionOf(in) + ".ToBytes|returned-bytes-changed-by-edit-and-reencode", Order: order, Scope: "H5 encode-edit-encode (" + in.Name + ")", Input: fw.Hex(in.B),
+					Observed: fmt.Sprintf("bytes returned by ToBytes were %s; after the message was edited and encoded again they read %s", fw.HexShort(keep3), fw.HexShort(b3)),
+					Expected: "unchanged: the encoding handed to the caller is the caller's",
+					Explain:  "ToBytes serialises into storage kept inside the message"})
+			}
+			cnt.compared.Add(1)
+		})
 	}
 	// H3
 	for _, o := range others {
